@@ -85,7 +85,7 @@ func vhLeaseOp(m *Manager, h *vhHolder) {
 // end at most one node holds an unexpired lease it was granted, a grant was
 // only made over a free / own / expired record, and a return never removed
 // another node's record.
-func VH_C15_lease() {
+func VH_C15_lease(window, tail int) {
 	rs, lf, _, base := kv.VHNewStore()
 	// arbitrary pre-existing record
 	var pre Lease
@@ -107,7 +107,14 @@ func VH_C15_lease() {
 	if hasPre && pre.ID == 2 {
 		hb = vhHolder{ok: true, until: pre.Until}
 	}
-	hook.afterGet = func() { vhLeaseOp(b, &hb) }
+	// between node 1's read and its write node 2 makes `window` arbitrary calls
+	// (two calls allow a return followed by a fresh lease: the record is deleted
+	// and re-created, which a version check must still tell apart)
+	hook.afterGet = func() {
+		for i := 0; i < window; i++ {
+			vhLeaseOp(b, &hb)
+		}
+	}
 	_ = base
 
 	// node 1's call (lease / renew, or return), with node 2 interfering between its read and its write
@@ -135,8 +142,10 @@ func VH_C15_lease() {
 	if hasPre && pre.ID == 3 {
 		hc = vhHolder{ok: true, until: pre.Until}
 	}
-	vhLeaseOp(c, &hc)
-	vhLeaseOp(b, &hb)
+	if tail != 0 {
+		vhLeaseOp(c, &hc)
+		vhLeaseOp(b, &hb)
+	}
 
 	now := time.Now()
 	holdsA := ha.ok && now.Before(ha.until)
